@@ -111,6 +111,8 @@ GEN_CFGS = {
     "wide": dict(Comp='{"a", "b", "c"}', MaxDepth=2, Chunks='{"c1", "c2", "c3"}', AttrVals="{1, 2}", Depth=12, OkBias=85),
     "deep": dict(Comp='{"a", "b"}', MaxDepth=4, Chunks='{"c1", "c2"}', AttrVals="{1}", Depth=12, OkBias=88),
     "long": dict(Comp='{"a", "b", "c"}', MaxDepth=3, Chunks='{"c1", "c2", "c3"}', AttrVals="{1, 2, 3}", Depth=30, OkBias=90),
+    # two components, depth 2: sibling directories with children, removed / renamed over and over (dense in subtree selection)
+    "tiny": dict(Comp='{"a", "b"}', MaxDepth=2, Chunks='{"c1"}', AttrVals="{1}", Depth=12, OkBias=92),
     # file handles that stay open across other calls (HOpen / HWrite / HSync / HClose interleaved with everything else)
     "handles": dict(Comp='{"a", "b"}', MaxDepth=2, Chunks='{"c1", "c2"}', AttrVals="{1, 2}", Depth=16, OkBias=85,
                     Handles='{"h1", "h2"}', HandleFlags="{0, 1, 2, 6, 10, 18, 26, 42}", HBias=45),
@@ -178,15 +180,17 @@ def run_core(prop, tier, seed, t0, replay_item=None):
     else:
         mc = mc_core(tier)
         log("[%s] TLC exhaustive: %d distinct / %d generated states in %.0fs, all invariants hold on the design" % (prop, mc["distinct"], mc["generated"], mc["wall_s"]))
-        plan = [("wide", 110), ("deep", 45), ("long", 12), ("handles", 40)] if tier == "quick" else [("wide", 1500), ("deep", 700), ("long", 200), ("handles", 600)]
+        plan = [("wide", 100), ("deep", 45), ("long", 12), ("handles", 40)] if tier == "quick" else [("wide", 1500), ("deep", 700), ("long", 200), ("handles", 600)]
+        if prop in ("C12", "C13"):
+            plan.append(("tiny", 40 if tier == "quick" else 600))
         behs, gen_states = generate_core(seed, plan)
         rng = random.Random(seed)
         items = []
         for i, (gname, steps) in enumerate(behs):
             pool = None
-            if prop == "C12" or (prop == "C13" and i % 2 == 0):
+            if prop == "C12" or (prop == "C13" and (i % 2 == 0 or gname == "tiny")):
                 # names that are SQL wildcards / case twins / prefixes of their siblings: where subtree selection goes wrong
-                pool = rng.choice(["like", "like2", "spaces", "nonascii", "prefix", "case", "dots"])
+                pool = rng.choice(["like", "like", "like2", "like2", "case", "case", "spaces", "nonascii", "prefix", "dots"])
             cfg, cc, pool = conc.concretise(rng, steps, pool=pool, plain_bias=0.7 if tier == "quick" else 0.5,
                                             allow_pgp=(tier == "thorough" or i % 10 == 0), small=(tier == "quick"))
             if prop == "C05" and i % 2 == 0:
